@@ -272,6 +272,26 @@ theorem C20_perf_reports_definitions (o : Orc) (t0 t1 tEnd : Int) (values : List
   simp only [soft, Except.ok.injEq] at hm hr
   exact ⟨hm.symm, hr.symm⟩
 
+/-- for a regular index (`tEnd − t0 = (n − 1)·(t1 − t0)`) the duration is `n` sampling intervals, whatever the interval -/
+theorem C20_perf_duration_regular_index (o : Orc) (t0 t1 tEnd : Int) (values : List Rat) (rf : Rat) (bench : Option (List Rat))
+    (p : Perf) (h : performanceMetrics o t0 t1 tEnd values rf bench = .ok p)
+    (hreg : tEnd - t0 = ((values.length : Int) - 1) * (t1 - t0)) :
+    p.durationInDay = values.length * p.intervalInDay := by
+  obtain ⟨hi, hd, _⟩ := C20_perf_entries o t0 t1 tEnd values rf bench p h
+  rw [hi, hd, hreg]
+  push_cast
+  ring
+
+/-- alpha/beta and the reported volatility, like the Sharpe ratio, are unchanged when the series (and the benchmark)
+    are rescaled: they depend on the ratio series only -/
+theorem C20_ratio_metrics_scale_invariant (o : Orc) (interval duration c c' : Rat) (hc : c ≠ 0) (hc' : c' ≠ 0)
+    (xs bs : List Rat) :
+    alphaBeta o (xs.map (c * ·)) (bs.map (c' * ·)) duration = alphaBeta o xs bs duration ∧
+    perfVolatility o (xs.map (c * ·)) interval = perfVolatility o xs interval := by
+  unfold alphaBeta perfVolatility
+  rw [shiftRatios_scale c hc, shiftRatios_scale c' hc']
+  exact ⟨rfl, rfl⟩
+
 /-! ### non-vacuity -/
 example : sampleVar [1, 2, 4] = .ok (7/3) ∧ cov [1, 2, 4] [1, 3, 2] = .ok (1/2) := by decide +kernel
 example : sampleVar [1] = .error .nonfinite := by decide +kernel
